@@ -483,7 +483,8 @@ __strfdt_dur(
 					buf, bsz, "%" PRIi64 "rns", dur);
 			}
 		default:
-			break;
+			/* nothing printed, nothing to account for */
+			return 0U;
 		}
 		break;
 	}
